@@ -8,7 +8,8 @@ dictToParams).  Core Lean only.
 
 Bytes are `Nat` (the harness only sends values < 256), byte strings `List Nat`.
 An error return of the Go code is `none` (only the error *class* is compared).
-zlib's inflate (and x/image/ccitt) are parameters (`Ext`).
+zlib's inflate and x/image/ccitt's reader are parameters (`Ext`); tabula's wrapper
+`filters.CCITTFaxDecode` (`internal/filters/ccittfax.go`) around the latter is modelled.
 
 The second half of the file holds the *specification encoders* (the "conforming
 encoder" of the property): `hexEncode`, `a85Encode`, `pngPredict`, `tiffPredict`,
@@ -117,6 +118,10 @@ structure Params where
   columns : Option Int := none
   colors : Option Int := none
   bpc : Option Int := none
+  /-- `Rows`, `K`, `BlackIs1`: read by `filters.CCITTFaxDecode` only -/
+  rows : Option Int := none
+  k : Option Int := none
+  blackIs1 : Option Bool := none
 deriving Repr, DecidableEq, Inhabited
 
 /-- `filters.paethPredictor` -/
@@ -256,10 +261,32 @@ def flateDecode (inflate : Str → Option Str) (data : Str) (params : Option Par
 
 /-! ### `core/stream.go` -/
 
-/-- external decoders: zlib inflate and x/image/ccitt -/
+/-- the arguments `filters.CCITTFaxDecode` passes to `ccitt.NewReader` (bit order is always MSB):
+sub-format Group4 or Group3, `Options.Invert`, width, height (`-1` = `ccitt.AutoDetectHeight`) -/
+structure CcittArgs where
+  group4 : Bool
+  invert : Bool
+  columns : Int
+  rows : Int
+deriving Repr, DecidableEq, Inhabited
+
+/-- external decoders: zlib inflate and x/image/ccitt (`io.ReadAll(ccitt.NewReader(…))`) -/
 structure Ext where
   inflate : Str → Option Str
-  ccitt : Str → Option Str
+  ccitt : CcittArgs → Str → Option Str
+
+/-- `filters.CCITTFaxDecode`: Columns (default 1728), Rows (0), K (0), BlackIs1 (false) from the
+parameters; Columns < 1 and Rows < 0 are refused; K < 0 selects Group 4, otherwise Group 3;
+Rows = 0 means "detect the height" -/
+def ccittFaxDecode (rd : CcittArgs → Str → Option Str) (data : Str) (params : Option Params) : Option Str :=
+  let p := params.getD {}
+  let columns := p.columns.getD 1728
+  let rows := p.rows.getD 0
+  let k := p.k.getD 0
+  let blackIs1 := p.blackIs1.getD false
+  if columns < 1 then none
+  else if rows < 0 then none
+  else rd { group4 := decide (k < 0), invert := blackIs1, columns := columns, rows := if rows = 0 then -1 else rows } data
 
 def nFlateDecode : Str := [70, 108, 97, 116, 101, 68, 101, 99, 111, 100, 101]
 def nFl : Str := [70, 108]
@@ -286,7 +313,7 @@ def decodeWithFilter (ext : Ext) (data : Str) (name : Str) (params : Option Para
   else if name = nASCII85Decode ∨ name = nA85 then a85Decode data
   else if name = nLZWDecode ∨ name = nLZW then none
   else if name = nRunLengthDecode ∨ name = nRL then none
-  else if name = nCCITTFaxDecode ∨ name = nCCF then ext.ccitt data
+  else if name = nCCITTFaxDecode ∨ name = nCCF then ccittFaxDecode ext.ccitt data params
   else if name = nJBIG2Decode then none
   else if name = nDCTDecode ∨ name = nDCT then some data
   else if name = nJPXDecode then some data
